@@ -627,7 +627,8 @@ def rule_clamp(ctx):
                 r.violation('%s:range' % b.path, t['s'], b.path, 'slice range is not a range literal (unrecognised idiom)', reason='unrecognised-idiom')
                 continue
             for name, e in bounds:
-                ok = _clamped(e)
+                from ..ir import inline as _inline
+                ok = _clamped(e) or _clamped(_inline(f, e, depth=2, keep=('len', 'size')))      # the clamp may live in a private helper function
                 r.site('%s: slice bound `%s` is clamped to the inner length' % (b.path, name), t['s'], 'ok' if ok else 'violation')
                 if not ok:
                     r.violation('%s:%s' % (b.path, name), t['s'], b.path,
@@ -702,7 +703,8 @@ def rule_sibling_splice(ctx):
                 if y[0] == 'agg' and y[2] and 'ops::Range' in y[2]:
                     present = set()
                     for nm, e in zip(y[4], y[5]):
-                        bounds.add((nm, _norm(e, A['replacement_adt'])))
+                        from ..ir import inline as _inline
+                        bounds.add((nm, _norm(_inline(f, e, depth=2, keep=('len', 'size')), A['replacement_adt'])))
                         present.add(nm)
                     # open-ended ranges: a missing end is the length, a missing start is 0
                     if 'end' not in present and 'RangeFull' not in y[2]:
